@@ -1,6 +1,6 @@
 (* C14 - blocking requests are mutually exclusive and served first-come first-served. *)
 From Coq Require Import NArith List Bool.
-From ZB Require Import Api.Api Api.ApiProofs.
+From ZB Require Import Api.Api Api.ApiProofs Api.ApiLive gen.GenConsts.
 Import ListNotations.
 Open Scope N_scope.
 
@@ -24,6 +24,37 @@ Print Assumptions C14_blocking_write_needs_the_lock.
 Theorem C14_invariant : forall evs, scan (log (run_events evs)) = Some (abs_of (run_events evs)).
 Proof. exact reachable_inv. Qed.
 Print Assumptions C14_invariant.
+
+(* "Requests not marked blocking never wait for a blocking request's response: they are transmitted as soon as the link
+   is free": in every reachable state (well-formed history) in which the link is up and no message is being sent, a
+   non-blocking request issued now writes its first fragment in that very step - whatever the state of the blocking
+   lock (no hypothesis on it) *)
+Theorem C14_nonblocking_request_sends_at_once : forall evs rid cls n t, wf_events evs ->
+  get (run_events evs) rid = None -> uart_present (run_events evs) = true -> msg_holder (run_events evs) = None -> (1 <= n)%nat ->
+  In (OW rid 0 (pack_seq (run_events evs))) (snd (step_obs (run_events evs) (EIssue rid cls false n t))).
+Proof. exact nonblocking_request_sends_at_once. Qed.
+Print Assumptions C14_nonblocking_request_sends_at_once.
+
+(* the lock state is consistent with the requests' phases in every reachable state: a request waits in a lock's queue
+   iff it is in the corresponding phase; the blocking lock is held by exactly the blocking request that is between its
+   first frame and its end; at most one request awaits an ACK (the holder of the message lock) *)
+Theorem C14_reachable_states_consistent : forall evs, wf_events evs -> Q (run_events evs).
+Proof. exact reachable_Q. Qed.
+Print Assumptions C14_reachable_states_consistent.
+Theorem C14_consistent_means : forall s, Q s ->
+  NoDup (ids s) /\ NoDup (msg_q s) /\ NoDup (block_q s) /\
+  (msg_holder s = None -> msg_q s = []) /\ (block_holder s = None -> block_q s = []) /\
+  (forall r, In r (reqs s) ->
+     (is_done r = false -> lookup s (r_id r) = Some (r_blocking r, r_nfrags r) /\ (1 <= r_nfrags r)%nat) /\
+     (r_phase r = PQBlock <-> In (r_id r) (block_q s)) /\
+     (r_phase r = PQMsg <-> In (r_id r) (msg_q s)) /\
+     ((exists k d, r_phase r = PAwaitAck k d) <-> msg_holder s = Some (r_id r)) /\
+     (r_blocking r = true /\ (r_phase r = PQMsg \/ is_ack r = true \/ is_rsp r = true) <-> block_holder s = Some (r_id r)) /\
+     (r_phase r = PQBlock -> r_blocking r = true) /\
+     (forall k d, r_phase r = PAwaitAck k d -> msg_next s = S k /\ (k < r_nfrags r)%nat /\ d <= now s + ack_timeout_ms) /\
+     (forall d, r_phase r = PAwaitRsp d -> d <= now s + r_timeout r)).
+Proof. exact Q_spelled_out. Qed.
+Print Assumptions C14_consistent_means.
 
 (* non-vacuity: two blocking requests and a non-blocking one: the second blocking request's frame appears only after
    the first one ended; the non-blocking one does not wait for the first one's response *)
